@@ -47,6 +47,18 @@ const (
 	AppMessage = "short and stout"
 )
 
+// AppCodes are the codes the "app" outcome cycles through, by script: an application-defined one and the library's own
+// codes a handler may just as well return of its own accord while the caller is still waiting.
+var AppCodes = []string{AppCode, "cancelled", "closed", "not_found", "unavailable", "error", "test"}
+
+func appCodeOf(s *Script) string {
+	h := uint32(2166136261)
+	for _, c := range []byte(s.String()) {
+		h = (h ^ uint32(c)) * 16777619
+	}
+	return AppCodes[int(h%uint32(len(AppCodes)))]
+}
+
 var OpTimeout = tscale.D(3 * time.Second)
 
 // Payloads are the bytes of one call.
@@ -81,6 +93,7 @@ type command struct {
 	op      string
 	payload []byte
 	outcome string
+	code    string // of the "app" outcome
 }
 
 type reply struct {
@@ -185,7 +198,11 @@ func outcomeOf(c command) ([]byte, status.Status) {
 	case "ok":
 		return c.payload, status.OK
 	case "app":
-		return nil, status.New(status.Code(AppCode), AppMessage)
+		code := c.code
+		if code == "" {
+			code = AppCode
+		}
+		return nil, status.New(status.Code(code), AppMessage)
 	case "panic":
 		panic("handler panic ordered by the script")
 	}
@@ -252,6 +269,7 @@ func (rt *RT) Run(s *Script, method string, p Payloads, cl ClientSide, found fun
 			go sc.do(command{op: "return", outcome: "app"}) // a script cut short: let the handler go
 		}
 	}()
+	appCode := appCodeOf(s)
 	bad := func(k int, sig, f string, a ...any) {
 		found(sig, fmt.Sprintf("step %d (%s.%s): ", k, s.Script[k].Who, s.Script[k].Op)+fmt.Sprintf(f, a...))
 	}
@@ -266,8 +284,8 @@ func (rt *RT) Run(s *Script, method string, p Payloads, cl ClientSide, found fun
 				bad(k, "response-bytes", "the caller got %d bytes from a method without a result", len(b))
 			}
 		case "app":
-			if string(st.Code) != AppCode || st.Message != AppMessage {
-				bad(k, "status:"+string(st.Code), "the handler returned (%s, %q), the caller got (%s, %q)", AppCode, AppMessage, st.Code, st.Message)
+			if string(st.Code) != appCode || st.Message != AppMessage {
+				bad(k, "status:"+string(st.Code), "the handler returned (%s, %q), the caller got (%s, %q)", appCode, AppMessage, st.Code, st.Message)
 			}
 		case "panic":
 			if st.OK() {
@@ -285,7 +303,7 @@ func (rt *RT) Run(s *Script, method string, p Payloads, cl ClientSide, found fun
 			}
 		case "maybe-app":
 			if st.OK() {
-				bad(k, "ok-after-loss", "the handler returned (%s, %q) and the connection was lost, the caller got OK", AppCode, AppMessage)
+				bad(k, "ok-after-loss", "the handler returned (%s, %q) and the connection was lost, the caller got OK", appCode, AppMessage)
 			}
 		}
 	}
@@ -452,7 +470,7 @@ func (rt *RT) Run(s *Script, method string, p Payloads, cl ClientSide, found fun
 		case "send":
 			c.payload = p.Out(step.N)
 		case "return", "return2":
-			c.outcome, c.payload = step.Expect, p.Resp
+			c.outcome, c.payload, c.code = step.Expect, p.Resp, appCode
 		}
 		r, ok := sc.do(c)
 		if !ok {
